@@ -27,7 +27,7 @@ var ignoredFuncs = map[string]bool{
 	"sync.WaitGroup.Add": true, "sync.WaitGroup.Done": true,
 	"sync/atomic.Int64.Add": true, "sync/atomic.Int64.Store": true, "sync/atomic.Int32.Add": true, "sync/atomic.Bool.Store": true,
 	"sync/atomic.Uint64.Add": true, "sync/atomic.Uint32.Add": true,
-	"context.Background": true, "context.TODO": true,
+	"context.Background": true, "context.TODO": true, "context.Context.Done": true,
 	"time.Now": true,
 }
 
